@@ -2080,8 +2080,14 @@ def preprocess_file(
             defs = {}
         out_line = replace_defined(text)
         out_line = replace_vars(out_line)
+        out_line = replace_ops(out_line)
+        # Macro values and the condition itself come from the files being indexed:
+        # only hand plain integer/logical expressions to eval(), never names,
+        # calls, attribute access, strings or anything else Python would execute
+        if not FRegex.PP_EVAL_SAFE.fullmatch(out_line):
+            return False
         try:
-            line_res = eval(replace_ops(out_line))
+            line_res = eval(out_line)
         except:
             return False
         else:
